@@ -12,6 +12,13 @@ package binding
 //@ func (*binding.Reconciler).Reconcile
 //@ props C18
 //@ requires r != nil
+// the binding of every live revision - active or not - is brought up to date by each successful
+// reconcile, so a subject whose Deployment the revision no longer owns does not stay bound
+//@ ghost got bool = false
+//@ ghost applied bool = false
+//@ site (client.Reader).Get(_, _, _, $obj, $go...)
+//@   update got = err == nil
+//@ ensures [C18:binding-refreshed-for-every-live-revision] (err == nil && got && !meta.IsPaused(pr) && !meta.WasDeleted(pr)) ==> applied
 //@ optional site builtin.append($to, $add...) as bind-subject
 //@   where $to == subjects
 //@   assert [C18:subject-is-the-service-account-of-an-owned-deployment] len($add) == 1 && ref.UID == pr.GetUID()
@@ -25,3 +32,4 @@ package binding
 //@        && rb.RoleRef.Name == "crossplane:provider:" + pr.GetName() + ":system" && rb.Name == "crossplane:provider:" + pr.GetName() + ":system"
 //@   assert [C18:binds-only-the-collected-subjects] rb.Subjects == subjects
 //@   assert [C18,C02:binding-must-be-controllable-by-the-revision] contains($opts, resource.MustBeControllableBy(pr.GetUID()))
+//@   update applied = true
